@@ -1251,6 +1251,7 @@ class Emit:
         if k == "macro":
             name = "::".join(e[1])
             if name in self.skip_macros: return []
+            if name in ("anyhow::bail", "bail") and self.cur_result: return [ind + "throw (Rs.Err.config Rs.opaqueMsg)"]
             raise Unsupported(f"macro statement {name}!")
         if k == "assign":
             op, lhs, rhs = e[1], e[2], e[3]
